@@ -411,7 +411,9 @@ func (vc *FuncVC) storeLoc(st *State, l *Loc, v *Val) {
 // ---------------------------------------------------------------- setup
 
 func NewFuncVC(W *World, fn *ssa.Function, fc *FuncContract) *FuncVC {
-	vc := &FuncVC{Gen: newGen(W, fc.Layer1), fn: fn, fc: fc, name: fc.Name,
+	g0 := newGen(W, fc.Layer1)
+	g0.reveal = fc.Reveal
+	vc := &FuncVC{Gen: g0, fn: fn, fc: fc, name: fc.Name,
 		vals: map[ssa.Value]*Val{}, reach: map[*ssa.BasicBlock]Term{}, out: map[*ssa.BasicBlock]*State{},
 		edges: map[[2]int]Term{}, params: map[string]SVal{}, callOrd: map[string]int{}, nonnil: map[ssa.Value]bool{},
 		loopOrd: map[*ssa.BasicBlock]int{}, loopBody: map[*ssa.BasicBlock]map[*ssa.BasicBlock]bool{}, backEdge: map[[2]int]bool{},
